@@ -40,7 +40,10 @@ def logic_input_parser(x, y):
         x = '' if isinstance(y, str) else 0
     if y is sh.EMPTY:
         y = '' if isinstance(x, str) else 0
-    return (_get_type_id(x), x), (_get_type_id(y), y)
+    return tuple(  # Excel compares text case-insensitively.
+        (_get_type_id(v), v.upper() if isinstance(v, str) else v)
+        for v in (x, y)
+    )
 
 
 logic_wrap = functools.partial(
